@@ -30,11 +30,39 @@ EVAL_MOD = "fandango.evolution.evaluation"
 THRESHOLD_ATTRS = {"_expected_fitness", "expected_fitness"}
 
 
-def threshold_conjuncts(test: ast.AST) -> list[tuple[ast.Compare, str, ast.AST]]:
+def inline_predicate(cls: Optional[ClassInfo], c: ast.AST) -> ast.AST:
+    """`self._is_solution(x)` -> the returned expression of that one-line predicate with the
+    parameters substituted (so that an extracted helper does not hide the comparison)."""
+    if cls is None or not (isinstance(c, ast.Call) and isinstance(c.func, ast.Attribute) and isinstance(c.func.value, ast.Name) and c.func.value.id == "self"):
+        return c
+    m = cls.lookup(c.func.attr)
+    if m is None:
+        return c
+    body = [st for st in m.node.body if not (isinstance(st, ast.Expr) and isinstance(st.value, ast.Constant))]  # type: ignore[attr-defined]
+    if len(body) != 1 or not isinstance(body[0], ast.Return) or body[0].value is None:
+        return c
+    params = [p for p in m.params() if p != "self"]
+    bind = {p: a for p, a in zip(params, c.args)}
+    for k in c.keywords:
+        if k.arg:
+            bind[k.arg] = k.value
+
+    class Sub(ast.NodeTransformer):
+        def visit_Name(self, n: ast.Name) -> ast.AST:
+            return bind.get(n.id, n)
+
+    import copy
+
+    return ast.fix_missing_locations(Sub().visit(copy.deepcopy(body[0].value)))
+
+
+def threshold_conjuncts(test: ast.AST, cls: Optional[ClassInfo] = None) -> list[tuple[ast.Compare, str, ast.AST]]:
     """(compare, normalised operator with the fitness on the left, fitness expr) for every
     top-level conjunct of `test` that compares something with the acceptance threshold."""
     out = []
     conj = test.values if isinstance(test, ast.BoolOp) and isinstance(test.op, ast.And) else [test]
+    conj = [inline_predicate(cls, c) for c in conj]
+    conj = [x for c in conj for x in (c.values if isinstance(c, ast.BoolOp) and isinstance(c.op, ast.And) else [c])]
     for c in conj:
         if isinstance(c, ast.Compare) and len(c.ops) == 1:
             l, r = c.left, c.comparators[0]
@@ -92,7 +120,7 @@ def rule_a(chk: Check, eng: Engine) -> None:
         fit_names: set[str] = set()
         for n in cfg.nodes:
             if n.kind == "if":
-                for cmpn, op, fit in threshold_conjuncts(n.ast.test):  # type: ignore[union-attr]
+                for cmpn, op, fit in threshold_conjuncts(n.ast.test, fn.cls):  # type: ignore[union-attr]
                     fit_names |= names_in(fit)
                     if op == "GtE":
                         accept_edges.add((n.id, "true"))
@@ -630,6 +658,10 @@ def lin_eval(fn: FuncInfo, h: int, r: int, s: int):
         return None
 
     def truth(t):
+        if isinstance(t, ast.Call):
+            t2 = inline_predicate(fn.cls, t)
+            if t2 is not t:
+                return truth(t2)
         if isinstance(t, ast.BoolOp):
             vs = [truth(v) for v in t.values]
             if isinstance(t.op, ast.And):
@@ -800,6 +832,10 @@ MUTANTS = [
       "            if warnings_are_errors:\n                raise FandangoFailedError(\n                    \"Failed to find the required number of perfect solutions\"\n                )\n            else:\n", "R02-e"),
 ]
 TWINS = [
+    M("twin-extract-acceptance-predicate", _EV, "        if fitness >= self._expected_fitness and key not in self._solution_set:\n            self._solution_set.add(key)\n            yield individual\n",
+      "        if self._reaches_threshold(fitness) and key not in self._solution_set:\n            self._solution_set.add(key)\n            yield individual\n", None,
+      more=(("    def evaluate_population(self, population: list[DerivationTree]) -> Generator[\n        DerivationTree,\n        None,\n        list[tuple[DerivationTree, float, list[FailingTree], Suggestion]],\n    ]:\n        evaluation = []",
+             "    def _reaches_threshold(self, value: float) -> bool:\n        return value >= self._expected_fitness\n\n    def evaluate_population(self, population: list[DerivationTree]) -> Generator[\n        DerivationTree,\n        None,\n        list[tuple[DerivationTree, float, list[FailingTree], Suggestion]],\n    ]:\n        evaluation = []"),)),
     M("twin-handler-extra-log", _EV, "                print_exception(e)\n\n        # normalize to 0 <= fitness <= 1", "                print_exception(e)\n                LOGGER.debug(\"continuing\")\n\n        # normalize to 0 <= fitness <= 1", None),
     M("twin-comparison-order", _CMP, "                fitness_values.append(0.0)\n                for _, container in combination:\n                    failing_trees.extend(\n                        FailingTree(node, self) for node in container.get_trees()\n                    )\n                continue\n\n            try:\n                right",
       "                for _, container in combination:\n                    failing_trees.extend(\n                        FailingTree(node, self) for node in container.get_trees()\n                    )\n                fitness_values.append(0.0)\n                continue\n\n            try:\n                right", None),
